@@ -12,6 +12,7 @@ mod driver;
 mod exhaustive;
 mod model;
 mod oracle;
+mod pybridge;
 mod scenarios;
 mod sweep;
 
@@ -30,6 +31,19 @@ pub enum Work {
     Exhaustive { n: usize, phase: exhaustive::Phase, stride: u64 },
     Scenarios,
     Sweep { thorough: bool },
+    /// chains replayed call by call through the real extension module (lib.rs, StrategyForPython, history_comparisons.py)
+    PyBridge { cfg: ChainCfg, n: u64 },
+}
+
+fn bridge(conv: Conv, family: Family, maxn: usize, n: u64, inject: bool, misuse: bool) -> Work {
+    let mut cfg = ChainCfg::new(conv, family, maxn);
+    cfg.twins = false;
+    cfg.export = true;
+    cfg.inject = inject;
+    if misuse {
+        cfg.misuse = Misuse::Random(0.3);
+    }
+    Work::PyBridge { cfg, n }
 }
 
 fn chains(conv: Conv, family: Family, maxn: usize, n: u64) -> Work {
@@ -54,6 +68,9 @@ fn workloads(prop: &str, thorough: bool) -> Vec<Work> {
     };
     match prop {
         "C01" => {
+            w.push(chains(Prod, KindFlip, 8, 5000 * k));
+            w.push(chains(Plain, KindFlip, 8, 4000 * k));
+            w.push(chains(Prod, MultiPart, 4, 5000 * k));
             w.push(chains(Plain, Random, 8, 12000 * k));
             w.push(chains(Stamped, Random, 8, 8000 * k));
             w.push(chains(Prod, Random, 8, 12000 * k));
@@ -72,6 +89,17 @@ fn workloads(prop: &str, thorough: bool) -> Vec<Work> {
             exh(&mut w, exhaustive::Phase::Edits);
         }
         "C03" => {
+            w.push(chains(Prod, KindFlip, 8, 5000 * k));
+            w.push(chains(Prod, MultiPart, 4, 6000 * k));
+            w.push(bridge(Prod, MultiPart, 4, 800 * k, false, false));
+            // a validated Ephemeral that changes its output is rejected = a failed attempt: its records must not vouch afterwards
+            for (conv, fam, n) in [(Plain, ValidatedEph, 5000u64), (Stamped, ValidatedEph, 3000), (Plain, EphChain, 3000)] {
+                let mut c = ChainCfg::new(conv, fam, 4);
+                c.inject = true;
+                w.push(Work::Chains { cfg: c, n: n * k });
+            }
+            w.push(bridge(Prod, Random, 8, 600 * k, false, false));
+            w.push(bridge(Prod, Rename, 6, 600 * k, false, false));
             w.push(chains(Plain, Random, 8, 12000 * k));
             w.push(chains(Stamped, Random, 8, 8000 * k));
             w.push(chains(Prod, Random, 8, 10000 * k));
@@ -83,6 +111,11 @@ fn workloads(prop: &str, thorough: bool) -> Vec<Work> {
             exh(&mut w, exhaustive::Phase::Edits);
         }
         "C04" => {
+            w.push(chains(Prod, KindFlip, 8, 5000 * k));
+            w.push(chains(Prod, MultiPart, 4, 6000 * k));
+            w.push(bridge(Prod, MultiPart, 4, 800 * k, false, false));
+            w.push(bridge(Prod, Random, 8, 600 * k, false, false));
+            w.push(bridge(Prod, Rename, 6, 600 * k, false, false));
             w.push(chains(Plain, Random, 8, 12000 * k));
             w.push(chains(Stamped, Random, 8, 10000 * k));
             w.push(chains(Prod, Random, 8, 12000 * k));
@@ -103,6 +136,13 @@ fn workloads(prop: &str, thorough: bool) -> Vec<Work> {
             exh(&mut w, exhaustive::Phase::Edits);
         }
         "C06" => {
+            w.push(chains(Prod, KindFlip, 8, 5000 * k));
+            w.push(chains(Stamped, KindFlip, 8, 3000 * k));
+            w.push(bridge(Prod, FailHist, 7, 600 * k, false, false));
+            w.push(bridge(Plain, ValidatedEph, 4, 400 * k, true, false));
+            w.push(bridge(Plain, Random, 8, 400 * k, false, false));
+            w.push(bridge(Prod, Rename, 6, 600 * k, false, false));
+            w.push(bridge(Stamped, LateFail, 4, 400 * k, false, false));
             w.push(chains(Plain, FailHist, 7, 14000 * k));
             w.push(chains(Stamped, FailHist, 7, 8000 * k));
             w.push(chains(Prod, FailHist, 7, 8000 * k));
@@ -127,6 +167,12 @@ fn workloads(prop: &str, thorough: bool) -> Vec<Work> {
             exh(&mut w, exhaustive::Phase::Faults);
         }
         "C08" => {
+            // a validated Ephemeral that changes its output is rejected = a failed attempt: its records must not vouch afterwards
+            for (conv, fam, n) in [(Plain, ValidatedEph, 5000u64), (Stamped, ValidatedEph, 3000), (Plain, EphChain, 3000)] {
+                let mut c = ChainCfg::new(conv, fam, 4);
+                c.inject = true;
+                w.push(Work::Chains { cfg: c, n: n * k });
+            }
             w.push(chains(Plain, FailHist, 7, 14000 * k));
             w.push(chains(Stamped, FailHist, 7, 8000 * k));
             w.push(chains(Prod, FailHist, 7, 8000 * k));
@@ -158,6 +204,10 @@ fn workloads(prop: &str, thorough: bool) -> Vec<Work> {
             exh(&mut w, exhaustive::Phase::Faults);
         }
         "C11" => {
+            w.push(chains(Prod, KindFlip, 8, 4000 * k));
+            w.push(chains(Prod, MultiPart, 4, 4000 * k));
+            w.push(bridge(Prod, Random, 8, 800 * k, false, false));
+            w.push(bridge(Stamped, FailHist, 7, 400 * k, false, false));
             w.push(chains(Plain, Random, 8, 12000 * k));
             w.push(chains(Stamped, Random, 8, 8000 * k));
             w.push(chains(Prod, Random, 8, 10000 * k));
@@ -167,6 +217,8 @@ fn workloads(prop: &str, thorough: bool) -> Vec<Work> {
             exh(&mut w, exhaustive::Phase::Edits);
         }
         "C12" => {
+            w.push(chains(Prod, KindFlip, 8, 4000 * k));
+            w.push(chains(Prod, MultiPart, 4, 4000 * k));
             w.push(chains(Plain, Random, 8, 12000 * k));
             w.push(chains(Stamped, Random, 8, 10000 * k));
             w.push(chains(Prod, Random, 8, 10000 * k));
@@ -196,6 +248,19 @@ fn workloads(prop: &str, thorough: bool) -> Vec<Work> {
             exh(&mut w, exhaustive::Phase::Edits);
         }
         "C15" => {
+            w.push(chains(Prod, MultiPart, 4, 6000 * k));
+            w.push(bridge(Prod, MultiPart, 4, 800 * k, false, false));
+            w.push(bridge(Stamped, Random, 8, 600 * k, false, false));
+            w.push(bridge(Prod, Random, 8, 600 * k, false, false));
+            w.push(bridge(Stamped, ValidatedEph, 4, 600 * k, false, false));
+            w.push(bridge(Prod, Rename, 6, 600 * k, false, false));
+            w.push(bridge(Stamped, EphFail, 4, 400 * k, false, false));
+            // single runs under the production comparison: an up-to-date job whose records differ only textually is never executed
+            w.push(chains(Prod, Rename, 6, 8000 * k));
+            w.push(chains(Prod, Random, 8, 6000 * k));
+            w.push(chains(Stamped, Random, 8, 4000 * k));
+            w.push(chains(Prod, ValidatedEph, 4, 4000 * k));
+            w.push(chains(Prod, AbortOffered, 7, 4000 * k));
             w.push(Work::Meta { family: Random, maxn: 8, n: 12000 * k });
             w.push(Work::Meta { family: ValidatedEph, maxn: 4, n: 14000 * k });
             w.push(Work::Meta { family: EphChain, maxn: 4, n: 6000 * k });
@@ -205,6 +270,10 @@ fn workloads(prop: &str, thorough: bool) -> Vec<Work> {
             w.push(Work::Meta { family: LateFail, maxn: 4, n: 4000 * k });
         }
         "C16" => {
+            w.push(bridge(Stamped, ValidatedEph, 4, 800 * k, true, false));
+            w.push(bridge(Plain, ValidatedEph, 4, 600 * k, true, false));
+            w.push(bridge(Prod, ValidatedEph, 4, 600 * k, true, false));
+            w.push(bridge(Stamped, ValidatedEph, 4, 400 * k, false, false));
             for (conv, fam, n) in [(Plain, ValidatedEph, 14000), (Stamped, ValidatedEph, 12000), (Prod, ValidatedEph, 8000), (Plain, EphChain, 8000), (Stamped, Random, 8000)] {
                 let mut c = ChainCfg::new(conv, fam, if fam == Random { 8 } else { 4 });
                 c.inject = true;
@@ -225,6 +294,7 @@ fn workloads(prop: &str, thorough: bool) -> Vec<Work> {
             exh(&mut w, exhaustive::Phase::Faults);
         }
         "C18" => {
+            w.push(chains(Prod, KindFlip, 8, 5000 * k));
             w.push(chains(Prod, Rename, 6, 16000 * k));
             w.push(chains(Prod, Random, 8, 12000 * k));
             w.push(chains(Plain, Random, 8, 10000 * k));
@@ -235,6 +305,10 @@ fn workloads(prop: &str, thorough: bool) -> Vec<Work> {
             w.push(Work::Sweep { thorough });
         }
         "C20" => {
+            w.push(bridge(Stamped, Random, 8, 500 * k, false, true));
+            w.push(bridge(Plain, Random, 8, 400 * k, false, true));
+            w.push(bridge(Prod, Random, 8, 500 * k, false, true));
+            w.push(bridge(Stamped, LateFail, 4, 300 * k, false, true));
             for (conv, fam, maxn, n) in [(Plain, Random, 8, 8000u64), (Stamped, Random, 8, 4000), (Prod, Random, 8, 4000), (Plain, LateFail, 4, 4000), (Plain, ValidatedEph, 4, 4000), (Plain, AbortOffered, 7, 3000)] {
                 let mut c = ChainCfg::new(conv, fam, maxn);
                 c.misuse = Misuse::Random(0.3);
@@ -244,6 +318,14 @@ fn workloads(prop: &str, thorough: bool) -> Vec<Work> {
             exh(&mut w, exhaustive::Phase::Misuse);
         }
         _ => panic!("unknown property {}", prop),
+    }
+    if thorough && prop != "C19" && prop != "C15" && prop != "C16" && prop != "C20" {
+        // deeper scope of the thorough tier: chains of 8-20 evaluations over graphs of up to 20 (+motif) jobs
+        for (conv, fam, maxn, n) in [(Plain, Random, 20, 6000u64), (Prod, Random, 16, 6000), (Stamped, Random, 12, 4000), (Prod, Rename, 8, 6000), (Prod, KindFlip, 10, 4000), (Plain, LateFail, 6, 4000), (Plain, EphChain, 6, 4000)] {
+            let mut c = ChainCfg::new(conv, fam, maxn);
+            c.long = true;
+            w.push(Work::Chains { cfg: c, n });
+        }
     }
     w
 }
@@ -308,6 +390,10 @@ fn main() {
             for (wi, w) in workloads(&prop, thorough).into_iter().enumerate() {
                 let t1 = Instant::now();
                 let before = acc.evaluations;
+                // development aid: PPGMON_ONLY=pybridge runs only the PyO3 boundary replay workloads
+                if std::env::var("PPGMON_ONLY").map(|v| v == "pybridge").unwrap_or(false) && !matches!(w, Work::PyBridge { .. }) {
+                    continue;
+                }
                 match w.clone() {
                     Work::Chains { cfg, n } => {
                         let base = seed.wrapping_mul(1_000_003).wrapping_add(wi as u64 * 100_000_000);
@@ -340,6 +426,20 @@ fn main() {
                         scenarios::run_all(&mut acc, false);
                         wl_desc.push("regression scenarios (canonical witnesses of fixed findings)".to_string());
                     }
+                    Work::PyBridge { cfg, n } => {
+                        let base = seed.wrapping_mul(1_000_003).wrapping_add(wi as u64 * 100_000_000);
+                        let c2 = cfg.clone();
+                        let mut a = run_parallel(nthreads, n, deadline, &timed_out, move |i, acc| {
+                            let o = run_chain(base + i, &c2, acc);
+                            acc.export_lines.push(pybridge::chain_line(base + i, &c2, &o));
+                        });
+                        let lines = std::mem::take(&mut a.export_lines);
+                        acc.merge(a);
+                        let workdir = std::path::Path::new(&out).with_extension(format!("pybridge{}", wi));
+                        pybridge::replay_lines(lines, &cfg, &workdir, nthreads, deadline, &mut acc, false);
+                        let _ = std::fs::remove_dir_all(&workdir);
+                        wl_desc.push(format!("PyO3 boundary replay (extension module + history_comparisons.py) of chains conv={} family={} maxn={} n={} flags={}", cfg.conv.name(), cfg.family.name(), cfg.maxn, n, cfg.replay_args(0).last().unwrap()));
+                    }
                     Work::Sweep { thorough } => {
                         sweep::run_sweep(thorough, seed, nthreads, deadline, &timed_out, &mut acc);
                         wl_desc.push(format!("size sweep in subprocesses thorough={}", thorough));
@@ -371,6 +471,20 @@ fn main() {
                     cfg.verbose = true;
                     run_chain(seed, &cfg, &mut acc);
                 }
+                "pybridge" => {
+                    let mut cfg = ChainCfg::new(Conv::parse(&args[3]), Family::parse(&args[4]), args[5].parse().unwrap());
+                    let seed: u64 = args[6].parse().unwrap();
+                    cfg.apply_flags(args.get(7).map(|s| s.as_str()).unwrap_or("-"));
+                    cfg.export = true;
+                    cfg.verbose = true;
+                    let o = run_chain(seed, &cfg, &mut acc);
+                    let dir = std::env::temp_dir().join(format!("ppgmon-pybridge-{}", std::process::id()));
+                    pybridge::replay_lines(vec![pybridge::chain_line(seed, &cfg, &o)], &cfg, &dir, 1, Instant::now() + Duration::from_secs(300), &mut acc, true);
+                    let _ = std::fs::remove_dir_all(&dir);
+                    for r in &acc.inconclusive {
+                        println!("INCONCLUSIVE {}", r);
+                    }
+                }
                 "meta" => {
                     run_metamorphic(args[5].parse().unwrap(), Family::parse(&args[3]), args[4].parse().unwrap(), &mut acc, true);
                 }
@@ -393,6 +507,23 @@ fn main() {
             }
             if acc.viols.is_empty() {
                 println!("no monitor fired");
+            }
+        }
+        "bulk" => {
+            // development aid: ppgmon bulk <conv> <family> <maxn> <seed0> <n> [flags]
+            let mut cfg = ChainCfg::new(Conv::parse(&args[2]), Family::parse(&args[3]), args[4].parse().unwrap());
+            let seed0: u64 = args[5].parse().unwrap();
+            let n: u64 = args[6].parse().unwrap();
+            cfg.apply_flags(args.get(7).map(|s| s.as_str()).unwrap_or("-"));
+            let timed_out = Arc::new(AtomicBool::new(false));
+            let c2 = cfg.clone();
+            let acc = run_parallel(16, n, Instant::now() + Duration::from_secs(3600), &timed_out, move |i, acc| {
+                run_chain(seed0 + i, &c2, acc);
+            });
+            println!("counters {:?}", acc.counters.iter().filter(|(k, _)| k.starts_with("evals_with")).collect::<Vec<_>>());
+            println!("evaluations {} nontrivial {:?}", acc.evaluations, acc.nontrivial.iter().map(|(k, v)| (k.clone(), v.len())).collect::<Vec<_>>());
+            for ((p, sig), e) in &acc.viols {
+                println!("VIOLATED {} x{} sig={} :: {} :: {:?}", p, e.count, sig, e.first.detail.chars().take(300).collect::<String>(), e.first.replay_args);
             }
         }
         "sweep-case" => {
